@@ -33,7 +33,7 @@ VERBOSE_OPS = {"encode", "decode", "accessor_to_latter_map", "latter_map_to_acce
 @st.composite
 def op_strategy(draw, k):
     f = draw(st.sampled_from([
-        "encode", "encode", "decode", "set_vt", "repair_dna", "path_matching", "accessor_to_latter_map",
+        "encode", "encode", "decode", "set_vt", "repair_dna", "repair_dna", "path_matching", "accessor_to_latter_map",
         "latter_map_to_accessor", "remove_useless", "accessor_to_adjacency_matrix", "adjacency_matrix_to_accessor",
         "obtain_vertices", "obtain_leaf_vertices", "get_complete_accessor", "get_complete_accessor", "find_vertices",
         "filter_valid", "connect_valid_graph", "connect_coding_graph", "connect_coding_graph",
@@ -50,7 +50,7 @@ def op_strategy(draw, k):
     elif f == "set_vt":
         op.update(n=draw(st.integers(1, 6)))
     elif f == "repair_dna":
-        op.update(indel=draw(st.booleans()))
+        op.update(indel=draw(st.booleans()), check_len=draw(st.sampled_from([0, 1, 1, 2, 5])))
     elif f == "path_matching":
         op.update(indel=draw(st.booleans()), loc=draw(st.integers(0, 2 * k)))
     elif f in ("latter_map_to_accessor", "remove_useless"):
@@ -81,13 +81,13 @@ def op_strategy(draw, k):
 def histories(draw, tier):
     graph = draw(gens.coding_graphs(1, 3, weights={1: 1, 2: 3, 3: 2}))
     k = graph["k"]
-    bits = draw(gens.messages(40, min_len=1))
+    bits = draw(gens.messages(40 if draw(st.integers(0, 5)) else 320, min_len=1))
     table = draw(gens.tables(k, allow_none=False))
     strand, _ = o.ref_encode([int(c) for c in bits], graph["rows"], k, graph["start"])
     if len(strand) < 2 * k + 2:
         strand = strand + draw(gens.walks(graph, (o.walk_states(graph["rows"], k, graph["start"], strand) or
                                                   [graph["start"]])[-1], 2 * k + 2, 2 * k + 8))
-    corrupted = draw(gens.edits(strand, draw(st.integers(1, 2))))
+    corrupted = draw(gens.edits(strand, draw(st.integers(1, 3))))
     if len(corrupted) < k:
         corrupted = strand
     mask = draw(gens.masks(k, [0.5, 0.65, 0.8, 0.9]))
@@ -172,7 +172,9 @@ def evaluate(case):
             return bad("call %d %r returned %s inside the history %r but %s on fresh equal arguments (reverse order)"
                        % (index, ops[index], short(recorded[index]), names, short(again)), labels)
     if case["fresh"]:
-        env = dict(os.environ, VERIF_REPO=REPO, PYTHONPATH=VERIF, PYTHONHASHSEED="0")
+        # another hash seed than this process (0): results must not depend on set/dict iteration order
+        env = dict(os.environ, VERIF_REPO=REPO, PYTHONPATH=VERIF, PYTHONHASHSEED=str(1 + len(json.dumps(ops)) % 9973),
+                   VERIF_NO_POOL="1")
         done = subprocess.run([sys.executable, "-m", "pbt.history"], input=json.dumps({"bundle": desc, "ops": ops}),
                               capture_output=True, text=True, timeout=120, env=env, cwd=VERIF)
         if done.returncode != 0:
